@@ -410,6 +410,11 @@ pub fn c03_quick() -> Vec<(Scenario, bool)> {
     let mut two = base("removal-two-devices", &["A", "B", "C", "C2", "Z"], &ad, &["O"], vec![msg("C2", "c2-before"), act("A", ActKind::Remove("C".into()), 10).then(vec![msg("Z", "z-after-removal")])]);
     two.same_identity = vec![("C2".into(), "C".into())];
     v.push((two, true));
+    // several users removed by one call, named in both orders (their keys are random: one of the two orders is descending)
+    let m5 = ["A", "B", "C", "E", "F", "Z"];
+    for (i, who) in ["C+E", "E+C", "C+E+F", "F+E+C", "E+F+C"].iter().enumerate() {
+        v.push((base(&format!("removal-many-{i}"), &m5, &ad, &["O"], vec![act("A", ActKind::Remove(who.to_string()), 10).then(vec![msg("Z", "z-after-removals")])]), true));
+    }
     // id rotation then removal
     v.push((base("rotate-remove", &m, &ad, &["O"], vec![act("A", ActKind::RotateId(0xC3), 10).then(vec![act("A", ActKind::Remove("C".into()), 20).then(vec![msg("Z", "z-after")])])]), true));
     v
